@@ -1634,3 +1634,69 @@ func RuleJM1(c *Ctx) {
 		sc.Undecided("sites", "-", "no function returning the bytes of encoding/json found")
 	}
 }
+
+// ---------------------------------------------------------------- ST1
+
+// RuleST1: a string-typed name prints as itself. For every named type of the catalog whose
+// underlying type is string and which has a String() method (Path, TagName, ...), the method
+// is `return string(x)`: these values are map keys, parts of interaction ids and JSON
+// fields at the same time, and a String() that normalises (collapses `//`, trims, lowers)
+// makes the key text disagree with the stored value - two different paths print as one key.
+func RuleST1(c *Ctx) {
+	sc := c.Run.Begin("ST1", "the String() method of every string-typed name of the catalog returns the value unchanged", 1)
+	defer sc.End()
+	pk := c.P.Pkg("catalog")
+	if pk == nil {
+		sc.Undecided("anchors", "-", "unresolved anchor: package catalog")
+		return
+	}
+	info := pk.TypesInfo
+	n := 0
+	for _, name := range pk.Types.Scope().Names() {
+		tn, ok := pk.Types.Scope().Lookup(name).(*types.TypeName)
+		if !ok {
+			continue
+		}
+		named, ok := tn.Type().(*types.Named)
+		if !ok {
+			continue
+		}
+		if b, ok := named.Underlying().(*types.Basic); !ok || b.Info()&types.IsString == 0 {
+			continue
+		}
+		var str *types.Func
+		for i := 0; i < named.NumMethods(); i++ {
+			if named.Method(i).Name() == "String" {
+				str = named.Method(i)
+			}
+		}
+		fd := c.P.Decl(str)
+		if str == nil || fd == nil || fd.Recv == nil || len(fd.Recv.List) != 1 || len(fd.Recv.List[0].Names) != 1 {
+			continue
+		}
+		n++
+		recv := info.ObjectOf(fd.Recv.List[0].Names[0])
+		ok2 := false
+		if len(fd.Body.List) == 1 {
+			if ret, isRet := fd.Body.List[0].(*ast.ReturnStmt); isRet && len(ret.Results) == 1 {
+				e := ast.Unparen(ret.Results[0])
+				if call, isCall := e.(*ast.CallExpr); isCall && len(call.Args) == 1 {
+					if tv, isT := info.Types[call.Fun]; isT && tv.IsType() {
+						e = ast.Unparen(call.Args[0])
+					}
+				}
+				if id, isId := e.(*ast.Ident); isId && info.ObjectOf(id) == recv {
+					ok2 = true
+				}
+			}
+		}
+		if ok2 {
+			sc.Holds(name, c.P.Pos(fd.Pos()), "returns the value itself")
+		} else {
+			sc.Violation(name, c.P.Pos(fd.Pos()), name+".String() does more than convert: the text used in ids and map keys is no longer the stored value, so values that differ only in what the method normalises away share one key while the interaction's own field keeps the raw text")
+		}
+	}
+	if n == 0 {
+		sc.Undecided("types", "-", "no string-typed name with a String() method in package catalog")
+	}
+}
